@@ -245,6 +245,8 @@ TEMPLATES = [
     "%un bound% += 1",
     "%order\u00a0total% * 2 + %a\u202fb%",
     "%tab\there% + %semi;colon% + %hash#tag%",
+    "'n = ' + nm", "'x' + None + [nm] + {1: nm}", "[nm] + [1] | len", "nm * 2 - nm / 1", "-nm if not nm else nm ** 2", "nm in [nm] and 'a' not in 'abc'",
+    "'s' + (nm > 0) + (nm == nm)", "m[0] += nm\nm[1:]", "x = nm\nx += 'a'",
 ]
 if isinstance(hlib.PARAM, dict) and "t" in hlib.PARAM:
     prewarm(TEMPLATES[hlib.PARAM["t"]])
@@ -257,6 +259,8 @@ def api_lookups(a: int, flag: bool) -> None:
     """
     hlib.enter(locals())
     text = TEMPLATES[hlib.PARAM["t"]]
+    if hlib.PARAM["t"] >= 11:
+        a = hlib.concrete(a, -1, 2)          # (these templates format / compute with the host value)
     with hlib.native():
         listed = set(PARSER.list_names(text))
     host = RecDict({'h': flag, 'm': [a, a], 'k1': a, 'k2': a, 'nm': a, 'c8': 'z', '%c6.c7%': 'y', 'y': a, 'n4': a, 'n3': a})
